@@ -1,5 +1,6 @@
 """C12 frequent items bounds bracket the truth (DESIGN.md section 5 C12): bookkeeping clauses."""
 import fi_rules as F
+import cowrite
 
 
 def run(facts, tier):
@@ -9,6 +10,7 @@ def run(facts, tier):
         ("bound algebra", F.bounds, 6, "lower/upper/estimate/maximum-error formulas; result filter pairing; descending order"),
         ("bookkeeping", F.bookkeeping, 5, "update order; merge adds offsets and the total computed before the replay; emptiness considers total weight"),
         ("probe displacement", F.probe_displacement, 1, "hash_delete measures displacement with a wrapping step counter"),
+        ("couplings", lambda fa: cowrite.obligations(fa, ['frequent_items_sketch', 'reverse_purge_hash_map']), 8, "fields that every mutator updates together (counters, extremes, cached values) are still updated together"),
     ):
         o = f(facts)
         obs += o
